@@ -315,16 +315,7 @@ async def process_resource_causes(
 
     # If there are any handlers for this resource kind in general, but not for this specific object
     # due to filters, then be blind to it, store no state, and log nothing about the handling cycle.
-    # "No state" includes the leftovers: if the object matched before and has stopped matching while
-    # some handlers were in progress (retrying or sleeping), nothing would ever finish or clean their
-    # progress records, and they would leak their retries/timings into the handling of a later change
-    # once the object matches again. Only the records present on the object are patched away;
-    # an object that has never been handled carries none and remains untouched.
     if changing_cause is not None and not registry._changing.prematch(cause=changing_cause):
-        storage = settings.persistence.progress_storage
-        owned_handlers = registry._changing.get_resource_handlers(resource=resource)
-        state = progression.State.from_storage(body=body, storage=storage, handlers=owned_handlers)
-        state.purge(body=body, patch=patch, storage=storage, handlers=owned_handlers)
         changing_cause = None
 
     # Block the object from deletion if we have anything to do in its end of life:
